@@ -41,7 +41,7 @@ def write_start(path, n, qc, pc, pq, blobs, normalise=False):
 def run_case(args):
     ctx, i, sdir, pool = args
     r = core.Rng("c03", ctx.seed, i)
-    n = r.choice([64, 96, 128, 160] if ctx.tier == "thorough" else [64, 96, 128])
+    n = r.choice([64, 96, 97, 128, 129, 160] if ctx.tier == "thorough" else [64, 65, 96, 97, 128])       # even and odd meshes
     steps = int(round(r.loguniform(20, 1200 if ctx.tier == "thorough" else 400)))
     sinus = (i % 3 == 2)
     o = dict(GridSize=n, StepsPerTs=steps, rotations=1.0, outstep=1, DampingTime=0.0, VacuumGap=0,
